@@ -13,6 +13,7 @@ import traceback
 from . import fsutil, ops, ref
 
 VERIF = ops.VERIF
+OUT = os.environ.get("VERIF_OUT", VERIF)   # evidence/replays of scratch-copy runs (seed matrix) go elsewhere
 NPROC = int(os.environ.get("VERIF_JOBS", "16"))
 SHM = "/dev/shm" if os.path.isdir("/dev/shm") else os.path.join(VERIF, ".scratch")
 
@@ -245,14 +246,18 @@ def finish(prop, tier, agg, merr, wall, *, level, rule, technique, assumptions, 
             new.append(v)
     for sigpat, (f, sigs) in sorted(known_hit.items()):
         print("KNOWN-FINDING: property=%s %s [%s; %d matching case(s)]" % (prop, f.get("what", ""), sigpat, len(sigs)))
-    rdir = os.path.join(VERIF, "replays", prop)
+    only = os.environ.get("VERIF_ONLY_SIG")
+    if only is not None:
+        # replay mode: the enumeration is deterministic, so re-running it revisits the recorded case; report only that one
+        new = [v for v in new if v["sig"] == only]
+    rdir = os.path.join(OUT, "replays", prop)
     maxv = int(os.environ.get("VERIF_MAXV", "25"))
     for v in new[:maxv]:
         os.makedirs(rdir, exist_ok=True)
         name = hashlib.blake2b(v["sig"].encode(), digest_size=6).hexdigest() + ".json"
         path = os.path.join(rdir, name)
         with open(path, "w") as fh:
-            json.dump({"property": prop, "signature": v["sig"], "what": v["what"], "replay": v["replay"]}, fh, indent=1,
+            json.dump({"property": prop, "tier": tier, "signature": v["sig"], "what": v["what"], "replay": v["replay"]}, fh, indent=1,
                       default=_default)
         print("VIOLATION property=%s replay=%s" % (prop, path))
         print("  signature: %s" % v["sig"])
@@ -294,8 +299,8 @@ def finish(prop, tier, agg, merr, wall, *, level, rule, technique, assumptions, 
         "wall_s": round(wall, 2),
         "violations": len(new),
     }
-    os.makedirs(os.path.join(VERIF, "evidence"), exist_ok=True)
-    with open(os.path.join(VERIF, "evidence", prop + ".json"), "w") as fh:
+    os.makedirs(os.path.join(OUT, "evidence"), exist_ok=True)
+    with open(os.path.join(OUT, "evidence", prop + ".json"), "w") as fh:
         json.dump(ev, fh, indent=1, default=_default)
     print("%s %s: evaluations=%d distinct=%d states=%d transitions=%d outcomes=%d violations=%d known=%d wall=%.1fs%s" % (
         prop, tier, agg["evals"], len(agg["distinct"]), agg["states"], agg["transitions"], len(agg["outcomes"]), len(new),
